@@ -112,8 +112,12 @@ def analyse(facts):
         k = s["k"]
         e = s.get("e") if k in ("semi", "expr") else None
         if k == "let":
-            if s["pat"]["k"] == "pident" and s["pat"]["name"] == "new_len":
+            if s["pat"]["k"] == "pident" and s.get("init") is not None and s["init"].get("k") == "if" and newlen_expr is None:
+                # the number of spectrum bins kept (a piecewise function of the two FFT sizes); known to the algebra under the name `new_len`
                 newlen_expr = s["init"]
+                newlen_name = s["pat"]["name"]
+                tenv.locals[newlen_name] = "int"
+                alg.syms[newlen_name] = alg.sym("new_len")
                 continue
             raise ir.AnchorMissing("resample_unit: unexpected let %s" % show(s)[:60])
         if e is None:
